@@ -160,6 +160,38 @@ func spThree(e enum.Embed, stride uint64, level int) *BoolSpace {
 		}}
 }
 
+// spTwoLevel: B9 - a subject quadrilateral whose vertices lie on the two rows y=0 and y=60 and a clip triangle whose
+// vertices lie on the rows y=-6 and y=66, x in {0,12,24,36,48}: long edges that cross each other pairwise inside ONE
+// scanbeam (no vertex between the rows), bow-ties and zigzags included. Strides must be coprime to 10.
+func spTwoLevel(strideS, strideC uint64, level int) *BoolSpace {
+	nS := (10000 + strideS - 1) / strideS
+	nC := (1000 + strideC - 1) / strideC
+	vert := func(d uint64, lo, hi int64) Pt {
+		p := Pt{X: int64(d%5) * 12, Y: lo}
+		if d/5 == 1 {
+			p.Y = hi
+		}
+		return p
+	}
+	return &BoolSpace{Name: fmt.Sprintf("B9/two-row quads (every %d-th) x two-row triangles (every %d-th), 5 columns", strideS, strideC), Level: level, Size: nS * nC, E: enum.Eunit,
+		Gen: func(idx uint64, g *genBuf) (Paths, Paths) {
+			g.reset()
+			si, ci := idx%nS*strideS, idx/nS*strideC
+			g.p[0], g.p[1] = g.p[0][:0], g.p[1][:0]
+			for i := 0; i < 4; i++ {
+				g.p[0] = append(g.p[0], vert(si%10, 0, 60))
+				si /= 10
+			}
+			for i := 0; i < 3; i++ {
+				g.p[1] = append(g.p[1], vert(ci%10, -6, 66))
+				ci /= 10
+			}
+			g.s = append(g.s, g.p[0])
+			g.c = append(g.c, g.p[1])
+			return g.s, g.c
+		}}
+}
+
 // boolSpaces returns the closed boolean scopes of a tier, smallest first
 // (iterated bound). which selects families used by the different properties.
 func boolSpaces(tier string) []*BoolSpace {
@@ -172,7 +204,7 @@ func boolSpaces(tier string) []*BoolSpace {
 		for _, e := range region {
 			out = append(out, spPair("B2", e, 3, 3, 3, 4), spTwo(e, 3, 3, 4))
 		}
-		out = append(out, spSingle(enum.Eax, 3, 6, 4), spPair("B2", enum.Ean, 3, 3, 3, 4), spThree(enum.Eax, 10, 5), spThree(enum.Ean, 13, 5), spThree(enum.Esh, 13, 5))
+		out = append(out, spSingle(enum.Eax, 3, 6, 4), spPair("B2", enum.Ean, 3, 3, 3, 4), spThree(enum.Eax, 10, 5), spThree(enum.Ean, 13, 5), spThree(enum.Esh, 13, 5), spTwoLevel(7, 3, 5))
 		return out
 	}
 	all := []enum.Embed{enum.Eax, enum.Esh, enum.Ean, enum.Ebig}
@@ -189,7 +221,7 @@ func boolSpaces(tier string) []*BoolSpace {
 		out = append(out, spPair("B4", e, 4, 3, 3, 6))
 	}
 	out = append(out, spThree(enum.Eax, 5, 6), spThree(enum.Esh, 7, 6), spThree(enum.Ean, 7, 6), spThree(enum.Eax, 3, 7))
-	out = append(out, spShapes(enum.Eax, 5, 6))
+	out = append(out, spShapes(enum.Eax, 5, 6), spTwoLevel(1, 1, 6))
 	return out
 }
 
